@@ -87,7 +87,7 @@ def chains(tier, rng):
     progs = []
     X = {'x': ('int', 1)}
     bases = [('(p for p in P)', {}), ('(p for p in P if p.a > x)', X), ('(p.id for p in P if p.b is not None)', {}), ('(p.a for p in P)', {}),
-             ('((p.a, p.id) for p in P)', {}), ('(p.s for p in P if p.f)', {}), ('(p for p in P if p.g is not None and p.b != x)', X),
+             ('((p.a, p.id) for p in P)', {}), ('((p.a, p.b) for p in P)', {}), ('(p.s for p in P if p.f)', {}), ('(p for p in P if p.g is not None and p.b != x)', X),
              ('(g for g in G if g.n is not None)', {})]
     orders = {'p': [[('p.a', False), ('p.id', False)], [('p.a', True), ('p.id', True)], [('p.id', True)], [('p.s', False), ('p.id', False)], [('p.b', False), ('p.a', True), ('p.id', False)]],
               'g': [[('g.n', False), ('g.id', False)], [('g.name', True), ('g.id', False)]]}
@@ -225,6 +225,14 @@ DELETE_PROGRAMS = [
     '(g for g in G if exists(p for p in g.ps if p.a > x))', '(g for g in G for p in g.ps if p.f)', '(t for t in T if not t.gs)', '(t for t in T if t.w > x)',
     '(p for p in P if p.a > x and p.a < x)', '(p for p in P if p.a >= x or p.a < x)',
 ]
+# a plain condition (WHERE) combined with an aggregate condition over a collection (GROUP BY / HAVING), both orders, and / or
+for _plain in ('g.n > x', 'g.name == y', 'g.n is None'):
+    for _agg in ('len(g.ps) > x', 'count(g.ps) == 0', 'sum(g.ps.a) > x', 'max(g.ps.b) == x', 'len(g.tags) > 1', 'not g.ps'):
+        for _t in ('%s and %s', '%s or %s'):
+            DELETE_PROGRAMS.append('(g for g in G if %s)' % (_t % (_plain, _agg)))
+            DELETE_PROGRAMS.append('(g for g in G if %s)' % (_t % (_agg, _plain)))
+DELETE_PROGRAMS += ['(g for g in G if len(g.ps) > x and len(g.tags) > 0)', '(g for g in G if g.n > x and len(g.ps) > 0 and g.name != y)',
+                    '(p for p in P if p.a > x and len(p.g.ps) > 1)', '(t for t in T if t.w > x and len(t.gs) > 1)']
 
 
 def bulk_delete(rep, db, S, tier, exclude):
